@@ -231,11 +231,64 @@ enum PayloadSpec {
 }
 
 fn arg_list(large: bool, elem: BoxedStrategy<RArg>) -> BoxedStrategy<Vec<RArg>> {
-    if large {
+    let list = if large {
         prop_oneof![20 => vec(elem.clone(), 0..8), 2 => vec(elem.clone(), 8..40), 1 => vec(elem, 200..=255)].boxed()
     } else {
         vec(elem, 0..6).boxed()
-    }
+    };
+    // neighbours that are equal, or equal under `==` but not bit for bit (+0.0 / -0.0, the same NaN / another NaN):
+    // some arguments become a copy of their predecessor with such a twist
+    (list, vec(any::<u8>(), 8))
+        .prop_map(|(mut args, sel)| {
+            for i in 1..args.len() {
+                let t = sel[i % sel.len()].wrapping_add(i as u8);
+                if t % 9 != 0 {
+                    continue;
+                }
+                let mut c = args[i - 1].clone();
+                match (t / 9) % 4 {
+                    0 => {}
+                    1 => {
+                        // zero of the other sign / other NaN payload in the value
+                        c.val = match c.val {
+                            RVal::F32(b) if b & 0x7fff_ffff == 0 => RVal::F32(b ^ 0x8000_0000),
+                            RVal::F64(b) if b & 0x7fff_ffff_ffff_ffff == 0 => RVal::F64(b ^ 0x8000_0000_0000_0000),
+                            RVal::F32(_) => RVal::F32(if t & 1 == 0 { 0 } else { 0x8000_0000 }),
+                            RVal::F64(_) => RVal::F64(if t & 1 == 0 { 0 } else { 0x8000_0000_0000_0000 }),
+                            v => v,
+                        };
+                        if let (RVal::F32(_) | RVal::F64(_), Some(prev)) = (&c.val, args.get_mut(i - 1)) {
+                            // make the pair (+0.0, -0.0)
+                            prev.val = match &c.val {
+                                RVal::F32(b) => RVal::F32(b ^ 0x8000_0000),
+                                RVal::F64(b) => RVal::F64(b ^ 0x8000_0000_0000_0000),
+                                v => v.clone(),
+                            };
+                        }
+                    }
+                    2 => {
+                        // quantization zero of the other sign
+                        if let Some((q, off)) = c.fixp {
+                            if let Some(prev) = args.get_mut(i - 1) {
+                                prev.fixp = Some((0, off));
+                            }
+                            c.fixp = Some((0x8000_0000, off));
+                            let _ = q;
+                        }
+                    }
+                    _ => {
+                        c.val = match c.val {
+                            RVal::F32(_) => RVal::F32(0x7fc0_0001),
+                            RVal::F64(_) => RVal::F64(0x7ff8_0000_0000_0001),
+                            v => v,
+                        };
+                    }
+                }
+                args[i] = c;
+            }
+            args
+        })
+        .boxed()
 }
 
 /// payload of the kind a given MSIN byte admits
